@@ -248,6 +248,7 @@ structure Op where
   rform : String := "-"
   endKind : String := "ok"  -- the `end=` token (coverage: which kind of value the body panicked with / returned)
   letters : String := ""
+  raw : Option RawEnd := none   -- the body ends the raw *sql.Tx itself after its statements (round 5c)
   deriving Repr
 
 def parseOp (op : List String) : Option Op :=
@@ -270,6 +271,16 @@ def parseOp (op : List String) : Option Op :=
     let oq := (match (← kv? rest "end") with
       | "goexit" => "goexit" | "panicnil1" => "nilpanic" | _ => "")
     if oq != "" && (cm.2.1 || rb.2.1) then none
+    -- raw=<c|C|r|R>: after its statements the body commits (c/C) / rolls back (r/R) the raw *sql.Tx itself; capital =
+    -- the driver refuses that call
+    let raw ← (match kv? rest "raw" with
+      | none => some none | some "-" => some none
+      | some "c" => some (some { commit := true, ok := true : RawEnd })
+      | some "C" => some (some { commit := true, ok := false : RawEnd })
+      | some "r" => some (some { commit := false, ok := true : RawEnd })
+      | some "R" => some (some { commit := false, ok := false : RawEnd })
+      | _ => none)
+    if raw.isSome && (oq != "" || cn.1.isSome) then none
     let inst ← (match kv? rest "inst" with
       | none => some 0 | some "0" => some 0 | some "1" => some 1 | _ => none)
     pure { api := api,
@@ -277,7 +288,7 @@ def parseOp (op : List String) : Option Op :=
                   rollbackPanics := rb.2.1, commitCls := cm.2.2.1, rollbackCls := rb.2.2.1 },
            b := { stmts := st, fin := en, cancelAt := cn.1, deadline := cn.2 },
            brkAllow := brk, oq := oq, inst := inst, cform := cm.2.2.2, rform := rb.2.2.2,
-           endKind := (← kv? rest "end"), letters := (← kv? rest "stmts") }
+           endKind := (← kv? rest "end"), letters := (← kv? rest "stmts"), raw := raw }
   | _ => none
 
 def isBreakerReject (r : Result) : Bool :=
@@ -373,12 +384,15 @@ def runSection (r : Report) (s : Section) : Report := Id.run do
         let env : Env := { ctxDone := ctxDone, brkAllow := op.brkAllow && !realReject,
                            connOk := via != "namedbad", userAccept := ua,
                            ctxDead := op.api == "ctxdead" }
-        let m := if via == "onconn" then transactOnConn op.f op.b else transactCtx env op.f op.b
+        let bx : BodyX := { base := op.b, raw := op.raw }
+        let m := if op.raw.isSome then
+                   (if via == "onconn" then transactOnConnX op.f bx else transactCtxX env op.f bx)
+                 else if via == "onconn" then transactOnConn op.f op.b else transactCtx env op.f op.b
         -- what the request handed to the breaker returned (`core=`; `?` when the harness cannot see it, `-` when
         -- it did not run / did not return)
         let coreObs := kvStr l.obs "core" "?"
         let coreWant := if via == "onconn" || !(!env.ctxDone && env.brkAllow) || m.escaped then "-"
-                        else renderRet (transactFn env.connOk op.f op.b).ret
+                        else renderRet (transactFnX env.connOk op.f bx).ret
         let implCore := if coreObs == "?" then impl else impl ++ " core=" ++ coreObs
         let implMain := joinSp (l.obs.filter fun t => !t.startsWith "core=" && !t.startsWith "cv=")
         -- the context the body is handed: the caller's (TransactCtx / transactOnConn: it carries the caller's
@@ -393,7 +407,8 @@ def runSection (r : Report) (s : Section) : Report := Id.run do
         let _ := implCore
         -- the wrapper hands the caller exactly what the request (transact) returned to the breaker
         let coreBad := coreObs != "?" && coreObs != "-" && !obs.escaped && coreObs != renderRet obs.ret
-        let bad := Spec.violated obs ++
+        -- a body that ends the raw Tx itself takes the choice of the end away from go-zero: the go-zero-side clauses
+        let bad := (if op.raw.isSome then Spec.violatedX obs else Spec.violated obs) ++
           (if markSeen && !Spec.breakerTold env.userAccept obs then ["breaker-told"] else []) ++
           (if coreBad then ["wrapper-returns-core-error"] else []) ++
           (if cvObs == "0" then ["body-gets-callers-context"] else [])
@@ -425,6 +440,13 @@ def runSection (r : Report) (s : Section) : Report := Id.run do
         if m.runs == 1 && op.letters.toList.any (fun c => c == 'b' || c == 'B') &&
             (match m.body with | .err e => (match e.is with | [.stmt _] => true | _ => false) | _ => false) then
           r := r.addCover "body-returned-ErrBadConn-no-second-transaction"
+        match op.raw with
+        | none => pure ()
+        | some re =>
+          if bx.reaches op.f && m.runs == 1 then
+            r := r.addCover (s!"raw-end-{if re.commit then "commit" else "rollback"}-{if re.ok then "ok" else "refused"}-body-" ++
+              (match m.body with | .nil => "nil-ErrTxDone-returned" | .panic => "panic" | .err _ => "err" | .notRun => "notrun"))
+          else r := r.addCover "raw-end-not-reached"
         if via == "cached" then r := r.addCover ("cached-constructor-" ++ kvStr s.cfg "cons" "cache")
         if via == "cached" && kvStr s.cfg "reuse" "0" == "1" then r := r.addCover "cached-conn-reused-over-the-section"
         -- round 4: the acceptable-error classes at every place an error can come from
